@@ -227,3 +227,6 @@ def extract_zip_sweep(ck, c, pat):
                   "statement components %s are zipped with response components %s only after their lengths were compared (mismatch rejects)" % (sorted(fa), sorted(fb)) if ok else
                   "statement components %s are zipped with response components %s without an enforced length equality: zip truncates, missing responses are not noticed" % (sorted(fa), sorted(fb)), f.loc(bi))
     return nz
+
+
+conditions_at = rules.conditions_at
